@@ -30,6 +30,28 @@ def setup():
     return _STATE
 
 
+def get_loader(opts):
+    """a loader built with other constructor options (DemultiplexingStrategyLoader.__init__: only_detect_methods,
+    indexFileAlias, indexParser=None); cached per option set"""
+    st = setup()
+    if not opts:
+        return st['dmx']
+    key = repr(sorted(opts.items()))
+    cache = st.setdefault('loaders', {})
+    if key not in cache:
+        from singlecellmultiomics.modularDemultiplexer.demultiplexingStrategyLoader import DemultiplexingStrategyLoader
+        old = sys.stdout
+        sys.stdout = io.StringIO()
+        try:
+            cache[key] = DemultiplexingStrategyLoader(
+                barcodeParser=st['bp'], indexParser=(None if opts.get('no_index_parser') else st['ip']),
+                only_detect_methods=opts.get('only_detect_methods'),
+                indexFileAlias=opts.get('index_alias', 'illumina_merged_ThruPlex48S_RP'))
+        finally:
+            sys.stdout = old
+    return cache[key]
+
+
 def describe():
     st = setup()
     out = []
@@ -131,7 +153,7 @@ def run_case(n, c):
     from singlecellmultiomics.fastqProcessing.fastqHandle import FastqHandle
     from singlecellmultiomics.fastqProcessing.fastqIterator import FastqIterator
     from singlecellmultiomics.modularDemultiplexer.baseDemultiplexMethods import IlluminaBaseDemultiplexer
-    dmx = st['dmx']
+    dmx = get_loader(c.get('loader_opts'))
     d = os.path.join(os.environ['SCMO_SCRATCH'], 'case%d' % n)
     os.makedirs(d)
     paths = []
@@ -152,6 +174,7 @@ def run_case(n, c):
             return res
         strategies = dmx.getSelectedStrategiesFromStringList(c['use'], verbose=False)
         res['order'] = [s.shortName for s in strategies]
+        res['registered'] = [s.shortName for s in dmx.demultiplexingStrategies]
         nh = 2 if c['pe_handle'] else 1
         if c.get('prior_files'):
             # run history: an EARLIER demultiplexing run (own handles, closed) into the same directory and prefix
@@ -171,7 +194,7 @@ def run_case(n, c):
         target = FastqHandle(os.path.join(d, 'demultiplexed'), c['pe_handle'], single_cell=c['sc'],
                              maxHandles=c.get('max_handles', 500))   # demux.py -fh, default 500
         rej = FastqHandle(os.path.join(d, 'rejects'), c['pe_handle']) if c['rejects'] else None
-        log = io.StringIO()
+        log = io.StringIO() if c.get('log', True) else None      # log_handle=None is the API default
         try:
             processed, yields = dmx.demultiplex(paths, strategies=strategies, targetFile=target, rejectHandle=rej,
                                                 log_handle=log, library=c['lib'], maxReadPairs=c['maxp'])
@@ -181,7 +204,7 @@ def run_case(n, c):
         target.close()
         if rej is not None:
             rej.close()
-        lg = log.getvalue()
+        lg = log.getvalue() if log is not None else ''
         m = re.search(r'^processed (\d+) read pairs$', lg, re.M)
         ly = {}
         if 'Strategy\tReads\n' in lg:
@@ -189,7 +212,7 @@ def run_case(n, c):
                 if '\t' in line:
                     a, b = line.rsplit('\t', 1)
                     ly[a] = int(b)
-        res['log'] = {'processed': int(m.group(1)) if m else None, 'yields': ly}
+        res['log'] = {'processed': int(m.group(1)) if m else None, 'yields': ly} if log is not None else None
         outs = read_outputs(d)
         res['out_files'] = outs
         if c.get('spec_only'):
@@ -261,6 +284,8 @@ def run_main_case(n, c):
         argv.append('--scsepf')
     if nm == 1:
         argv.append('--se')
+    if (c.get('loader_opts') or {}).get('only_detect_methods'):
+        argv += ['-only_detect_methods', ','.join(c['loader_opts']['only_detect_methods'])]
     script = os.path.join(os.environ['SCMO_REPO'], 'singlecellmultiomics', 'modularDemultiplexer', 'demux.py')
     res = {}
     devnull = open(os.devnull, 'w')
